@@ -1,4 +1,4 @@
-import LyModel.Valid.Spec
+import LyModel.Valid.SpecDefaults
 import LyModel.Valid.Hist
 /-! driver ops of component `valid` (C02, C07): see harness/api_val.c and harness/api_norm.c for the protocol -/
 namespace LyModel.Valid.Drv
@@ -37,6 +37,12 @@ def handle (op : String) (args : List String) : String :=
       match opts.toNat?, steps.mapM (parseStep X.base) with
       | some on, some sts => "ok" ++ String.join ((runHist X (VOpts.ofNat on) sts 0 0 []).map (" " ++ ·))
       | _, _ => "err BadStep"
+  | "rfcdefaults", [dsl, xdsl, opts, dump] =>
+    -- the explicit part of the tree completed with the default nodes the RFCs put in use (model only); flags of the input kept
+    withX dsl xdsl fun X =>
+      match opts.toNat?, forestOfHex X.base dump with
+      | some on, some f => "ok " ++ dumpTok (rfcComplete X (VOpts.ofNat on) f)
+      | _, _ => "err BadTree"
   | "spec", [dsl, xdsl, opts, dump] =>
     -- the violated constraint families of the RFC specification (model only)
     withX dsl xdsl fun X =>
